@@ -150,26 +150,79 @@ def capacity_guards(fn, len_slot):
         else:
             total = a
         # t = truth over (total<len, total==len, total>len)
-        # users: the conditional branch on the icmp result
-        br = None
+        # users: the conditional branch(es) on the icmp result - directly, or through a flag (`const bool fits = total <= len;`
+        # stored once into a local and tested later, possibly several times)
+        brs = []
         for j in i.block.insts:
             if j.op == "br" and i.res in j.ops and len(j.succs) == 2:
-                br = j
-        if br is None:
-            continue
-        tsucc, fsucc = br.succs[0], br.succs[1]
-        if t == (True, True, False):
-            fits, nofit, exact = tsucc, fsucc, True
-        elif t == (False, False, True):
-            fits, nofit, exact = fsucc, tsucc, True
-        elif t == (True, False, False):
-            fits, nofit, exact = tsucc, fsucc, False
-        elif t == (False, True, True):
-            fits, nofit, exact = fsucc, tsucc, False
-        else:
-            continue
-        out.append({"icmp": i, "br": br, "fits": fits, "nofit": nofit, "exact": exact, "total": total})
+                brs.append(j)
+        for z in fn.insts():
+            if z.op == "zext" and z.ops and z.ops[0] == i.res:
+                for st in fn.insts():
+                    if st.op == "store" and parse_store(st)[0] == z.res:
+                        slot = parse_store(st)[1]
+                        if sum(1 for s2 in fn.insts() if s2.op == "store" and parse_store(s2)[1] == slot) != 1:
+                            continue
+                        for ld in fn.insts():
+                            if ld.op == "load" and parse_load(ld) == slot:
+                                for tr in fn.insts():
+                                    if tr.op == "trunc" and tr.ops and tr.ops[0] == ld.res:
+                                        for j in tr.block.insts:
+                                            if j.op == "br" and tr.res in j.ops and len(j.succs) == 2:
+                                                brs.append(j)
+        for br in brs:
+            tsucc, fsucc = br.succs[0], br.succs[1]
+            if t == (True, True, False):
+                fits, nofit, exact = tsucc, fsucc, True
+            elif t == (False, False, True):
+                fits, nofit, exact = fsucc, tsucc, True
+            elif t == (True, False, False):
+                fits, nofit, exact = tsucc, fsucc, False
+            elif t == (False, True, True):
+                fits, nofit, exact = fsucc, tsucc, False
+            else:
+                continue
+            out.append({"icmp": i, "br": br, "fits": fits, "nofit": nofit, "exact": exact, "total": total})
     return out
+
+
+def bounded_memset(fn, inst, bslot, lslot, group):
+    """`memset(buffer, 0, c ? total : len)`: the length is a phi (or select) each of whose inputs is the capacity itself, or
+    the compared total arriving from a block that the fits-edge of a guard of `group` dominates.
+    -> None, or the list of (input kind, predecessor label)"""
+    if inst.op != "call" or not inst.callee or not (inst.callee.startswith("llvm.memset") or inst.callee == "memset"):
+        return None
+    if len(inst.args) < 3 or inst.args[1] != "0":
+        return None
+    defs = fn.defs()
+    d0 = defs.get(inst.args[0])
+    if d0 is None or d0.op != "load" or parse_load(d0) != bslot:
+        return None
+    d = defs.get(inst.args[2])
+    if d is None or d.op != "phi":
+        return None
+    pairs = re.findall(r'\[\s*([^,\]]+?)\s*,\s*(%[-\w.]+)\s*\]', d.text)
+    if not pairs:
+        return None
+    tot_slots = set()
+    for g in group:
+        dt = defs.get(g["total"])
+        if dt is not None and dt.op == "load":
+            tot_slots.add(parse_load(dt))
+    kinds = []
+    for v, pred in pairs:
+        pl = pred.lstrip("%")
+        dv = defs.get(v)
+        if dv is not None and dv.op == "load" and parse_load(dv) == lslot:
+            kinds.append(("capacity", pl))
+            continue
+        if dv is not None and dv.op == "load" and parse_load(dv) in tot_slots:
+            blk = fn.bmap.get(pl)
+            if blk is not None and any(fn.edge_dominates(g["br"].block.label, g["fits"], blk.insts[-1]) for g in group):
+                kinds.append(("total-on-fits", pl))
+                continue
+        return None
+    return kinds
 
 
 def value_origin_call(fn, val, depth=0):
@@ -246,7 +299,20 @@ def returns_constant_on(fn, start_label, const="0"):
         st = [s for s in fn.insts() if s.op == "store" and parse_store(s)[1] == slot and s.block.label in reach]
         if not st:
             return False
+        region = set(reach) | {start_label}
         for s in st:
-            if parse_store(s)[0] != const:
-                ok_all = False
+            v = parse_store(s)[0]
+            if v == const:
+                continue
+            # `return c ? f() : 0`: the stored value is a phi; only the inputs arriving from the region count
+            dv = fn.defs().get(v)
+            for _ in range(4):
+                if dv is not None and dv.op in ("zext", "sext", "trunc", "bitcast") and dv.ops:
+                    dv = fn.defs().get(dv.ops[0])
+            if dv is not None and dv.op == "phi":
+                pairs = re.findall(r'\[\s*([^,\]]+?)\s*,\s*(%[-\w.]+)\s*\]', dv.text)
+                inside = [val for val, pred in pairs if pred.lstrip("%") in region]
+                if pairs and inside and all(val.strip() == const for val in inside):
+                    continue
+            ok_all = False
     return ok_all
